@@ -195,6 +195,16 @@ def main(argv=None):
             discharged += 1
             continue
         if o["status"] == "unknown":
+            if getattr(pack, "REPLAY_UNKNOWN", False):
+                # DESIGN 2.5.3(c): native small-scope search on the real function as a last witness finder (opt-in per pack);
+                # only a natively reproduced failing input turns `unknown` into a violation
+                rp = do_replay(prop, o, repo)
+                if rp.get("reproduced"):
+                    o["status"] = "refuted"
+                    o["reason"] = ((o.get("reason") or "") + "; solver unknown, failing input found natively").strip("; ")
+                    o["_replayed"] = rp
+                    violations.append(o)
+                    continue
             undecided.append({"obligation": o["id"], "why": "solver unknown: " + (o.get("reason") or "")})
             continue
         # refuted
@@ -218,7 +228,7 @@ def main(argv=None):
     exit_code = 0
     vio_records = []
     for o in new_violations:
-        rp = do_replay(prop, o, repo)
+        rp = o.pop("_replayed", None) or do_replay(prop, o, repo)
         path = rp["path"]
         if rp.get("reproduced"):
             out_lines.append(f"VIOLATION property={prop} replay={path} obligation={o['id']}")
